@@ -21,7 +21,7 @@ from symx.ob import eq, holds, zabs, close
 ID = 'C07'
 
 
-BOUND = (('th0', 1e3), ('om0', 1e3), ('load', 10.0), ('duty', 1.0), ('thr', 1e3))
+BOUND = (('th0', 1e3), ('om0', 1.0), ('load', 1e-3), ('duty', 1.0), ('thr', 1e3))
 
 
 def _bound_of(name):
@@ -63,9 +63,9 @@ def magnitude_bound(term):
 class UnitTwin(sim.TwinHarness):
     """A: SI units everywhere; B: the seeded unit assignment"""
 
-    def __init__(self, topo, assignment, schedule=(('run', 3),), control=None, stop=None, tag=''):
+    def __init__(self, topo, assignment, schedule=(('run', 3),), control=None, stop=None, tag='', schedule_b=None):
         sched = tuple(schedule)
-        super().__init__(topo, schedule_a=sched, schedule_b=sched, control=control, tag=tag)
+        super().__init__(topo, schedule_a=sched, schedule_b=tuple(schedule_b) if schedule_b else sched, control=control, tag=tag)
         self.assignment = dict(assignment)
         self.stop = stop
         self.name = 'unittwin:%s:%s%s' % (topo, ','.join('%s=%s' % kv for kv in sorted(self.assignment.items())), tag)
@@ -81,11 +81,13 @@ class UnitTwin(sim.TwinHarness):
     def run(self, env):
         # bounded magnitudes: a difference of two huge operands carries their rounding noise (unit factors are doubles),
         # which no relative tolerance on the (cancelled) result can absorb
+        # ... and a region in which the sign of the motor's net torque cannot flip (slow output, light load): the only
+        # fork of a non-self-locking run then has one feasible side, so the twins share a single path instead of 3^K x 3^K
         env.real('th0', lo=-1e3, hi=1e3)
-        env.real('om0', lo=-1e3, hi=1e3)
+        env.real('om0', lo=-1.0, hi=1.0)
         nload = sum(op[1] for op in self.schedule_a if op[0].startswith('run')) + 2
         for k in range(nload):
-            env.real('load_%d' % k, lo=-10, hi=10)
+            env.real('load_%d' % k, lo=-1e-3, hi=1e-3)
         # A in SI
         self.units, self.init_units, self.dt_unit = {}, {}, 'sec'
         self._thr_unit = None
@@ -227,7 +229,7 @@ def specs(tier, seed):
     topos = ['T1', 'T3', 'T6', 'T2', 'T5']
     if tier == 'quick':
         for i in range(4):
-            S.append(('twin', topos[i % 3], _assignment(rnd), (('run', 2),), None, None))
+            S.append(('twin', topos[i % 3], _assignment(rnd), (('run', 3),), None, None))
     else:
         # covering design: every unit of every kind appears in at least one twin
         pend = {k: list(si.units_of(kind)[1:]) for k, kind in KEYS.items()}
@@ -240,6 +242,11 @@ def specs(tier, seed):
             S.append(('twin', t, _assignment(rnd), (('run', 2), ('run', 2)), None, None))
     if tier == 'thorough':
         S.append(('twin', 'T1', _assignment(rnd), (('run', 2),), ('arb', -1, 1), None))
+    # a continuation whose dt and T are expressed in another time unit than the first run
+    for u in (('ms', 'min') if tier == 'quick' else ('ms', 'min', 'hour')):
+        a = dict(_assignment(rnd))
+        a['dt'] = 'sec' if u != 'min' else 'hour'       # first run in one unit, continuation in another
+        S.append(('twin', 'T1', tuple(sorted(a.items())), (('run', 2), ('run', 2)), None, 'cont_' + u, (('run', 2), ('run', 2, u))))
     # stop-condition thresholds in other units
     for kind, idx, op, K in (('encoder', 2, 'greater_than_or_equal_to', 'AngularPosition'), ('tachometer', 0, 'less_than', 'AngularSpeed'),
                              ('amperometer', 0, 'greater_than', 'Current')):
@@ -255,16 +262,17 @@ def specs(tier, seed):
 def build(sp):
     if sp[0] == 'pa':
         return Batch('pressure_angles', [PressureAngle(*c) for c in sp[1]])
-    _, topo, assignment, sched, control, tag = sp
-    return UnitTwin(topo, assignment, schedule=sched, control=control, tag=':' + tag if tag else '')
+    _, topo, assignment, sched, control, tag = sp[:6]
+    sb = sp[6] if len(sp) > 6 else None
+    return UnitTwin(topo, assignment, schedule=sched, control=control, tag=':' + tag if tag else '', schedule_b=sb)
 
 
 JOB_CAP = {'quick': 900, 'thorough': 3000}
 REQUIRED_TRIGGERS = {'quick': ('same.number_of_instants', 'same.time', 'same.history', 'pa.same_outcome_in_every_unit')}
 BOUNDS = {
-    'quick': 'twin simulations (K=2; early stop with the threshold in another unit) on '
+    'quick': 'twin simulations (K=2; continuation 2+2 with the second run in ms / min; early stop with the threshold in another unit) on '
              'T1/T3/T6 with 4 seeded assignments of a non-SI unit to every input quantity (inertias, no-load speed, maximum torque, '
-             'currents, initial position and speed, dt and T, sensor threshold); initial state (|.| <= 1e3), loads (|.| <= 10 Nm), duty '
+             'currents, initial position and speed, dt and T, sensor threshold); initial position |.| <= 1e3 rad, initial speed |.| <= 1 rad/s, loads |.| <= 1 mNm (a region where the motor torque keeps its sign), duty '
              'cycle and threshold symbolic; worm gear / worm wheel construction with each of the four pressure angles given in rad, arcmin, arcsec, rot '
              '(exhaustive, concrete)',
     'thorough': 'covering design: every unit of InertiaMoment, AngularSpeed, Torque, Current, AngularPosition and Time appears in '
